@@ -142,7 +142,7 @@ Relaxed == [strict |-> FALSE, ncg |-> Mode = "xp3"]
 WithNcg == [strict |-> TRUE,  ncg |-> TRUE]
 
 (* x-\d : a multi-character escape where the END point of a range is expected (invalid in XSD 1.0 and 1.1) *)
-EscRangeEnd(w) == \E p \in 1..(Len(w) - 2) : /\ w[p] \in PlainInClass \cup SingleEsc /\ w[p + 1] = "-"
+EscRangeEnd(w) == \E p \in 1..(Len(w) - 2) : /\ w[p] \in PlainInClass \cup {"%n"} /\ w[p + 1] = "-"
                                               /\ w[p + 2] \in MultiEsc /\ ClsDepth(w, p - 1) > 0
 
 Why(w) == IF ~NoBadEsc(w) THEN "badesc"
